@@ -134,6 +134,7 @@ def install_regex(E):
                 path.assume_fact(z3.Or(U.is_tag("NoneV", g), z3.And(U.is_tag("StrV", g), E.PV.s(g) == f(st),
                                                                   z3.Length(f(st)) >= widths.get(i + 1, 0))))
                 path.ghost.setdefault("regroups", {})[z3.simplify(f(st)).get_id()] = (self.m.pattern, self.m.flags, i + 1)
+                path.ghost["regroups"][z3.simplify(E.PV.s(g)).get_id()] = (self.m.pattern, self.m.flags, i + 1)
                 out.append(E.from_pv(g))
             # from_pv of a fresh constant yields Sym; string atoms are created when the value is used
             return tuple(out)
